@@ -605,7 +605,7 @@ func init() {
 	sortedActs := append([]string{}, modifyingActions...)
 	sort.Strings(sortedActs)
 	register(&Prop{ID: "C15", Level: "fault_enumeration", NeedVFS: true,
-		Rule: "for every (pre-state, modifying command) of a hand-picked scenario corpus (init, config local/global, add new/modified/deleted/dir/., rm file/dir, first commit, commit with unchanged sub-tree, commit on another branch, emptied commit, branch create/rename/delete, switch, switch -c, reset soft/mixed/hard, restore file/deleted dir/--staged, update-ref) and of seeded random histories: the command is run once fault-free through the vfs-rewritten binary (every os.* call site counted, clock pinned) to obtain the sequence of file-system operations, then re-run from the restored pre-state for EVERY position k, the process killing itself (SIGKILL) before the k-th mutating operation; oracle on the post-crash state: independent fsck of everything reachable from branches and the index, each branch value in {before, after}, HEAD text in {before, after}, and ls-files / rev-parse HEAD / log -n 3 / status / branch --list / reflog still exit 0 if they do before and after; distinct = (command, operation kind at the crash point, file class)",
+		Rule:   "for every (pre-state, modifying command) of a hand-picked scenario corpus (init, config local/global, add new/modified/deleted/dir/., rm file/dir, first commit, commit with unchanged sub-tree, commit on another branch, emptied commit, branch create/rename/delete, switch, switch -c, reset soft/mixed/hard, restore file/deleted dir/--staged, update-ref) and of seeded random histories: the command is run once fault-free through the vfs-rewritten binary (every os.* call site counted, clock pinned) to obtain the sequence of file-system operations, then re-run from the restored pre-state for EVERY position k, the process killing itself (SIGKILL) before the k-th mutating operation; oracle on the post-crash state: independent fsck of everything reachable from branches and the index, each branch value in {before, after}, HEAD text in {before, after}, and ls-files / rev-parse HEAD / log -n 3 / status / branch --list / reflog still exit 0 if they do before and after; distinct = (command, operation kind at the crash point, file class)",
 		Mons:   func() []core.Monitor { return nil },
 		Run:    runFaultProp,
 		Replay: replayFault,
@@ -613,7 +613,7 @@ func init() {
 		Assume: []string{"a crash is process death between two file-system modifications (no torn single write, no reordering of persisted writes, no power loss)"},
 	})
 	register(&Prop{ID: "C16", Level: "fault_enumeration", NeedVFS: true,
-		Rule: "same (pre-state, command) pairs as C15; every position k over ALL operations (create, open, read, readdir, write, mkdir, rename, remove; stat excluded) fails once with EIO (all), ENOSPC (write/create/mkdir) or EACCES (open/create), plus a partial write (half the buffer, then ENOSPC) at every write; oracle: exit status in {0,1} without panic; exit 0 => decoded repository state and stdout equal the fault-free run; independent fsck (C03's invariant) whatever the exit status; no branch advanced to a commit lacking its parent link or snapshot; distinct = (command, errno, operation kind, file class)",
+		Rule:   "same (pre-state, command) pairs as C15; every position k over ALL operations (create, open, read, readdir, write, mkdir, rename, remove; stat excluded) fails once with EIO (all), ENOSPC (write/create/mkdir) or EACCES (open/create), plus a partial write (half the buffer, then ENOSPC) at every write; oracle: exit status in {0,1} without panic; exit 0 => decoded repository state and stdout equal the fault-free run; independent fsck (C03's invariant) whatever the exit status; no branch advanced to a commit lacking its parent link or snapshot; distinct = (command, errno, operation kind, file class)",
 		Mons:   func() []core.Monitor { return nil },
 		Run:    runFaultProp,
 		Replay: replayFault,
